@@ -398,7 +398,7 @@ theorem delivered_eq_hs (n : Nat) (ins : List LIn) : ∀ (s : Link) (d : DesN), 
     · next h => exact (if_neg h).symm
 
 /-- hand-off half of `link_delivers`: in the closed loop, for every divider ratio, every producer and every consumer timing
-    that keeps up (`keepsUp`: ready high in ≥ 2 cycles from each frame end to the next), the bytes handed over on the
+    that keeps up (`keepsUp`: the two ready cycles of the hand-off of byte k happen at the latest in the clock in which frame k+1 completes), the bytes handed over on the
     deserializer's ready/valid port are exactly the bytes latched by the receive FSM at its frame ends — each once, unchanged,
     in order.  (The other half is `rx_sampling` below.) -/
 theorem rx_handoff_partial (n : Nat) (ins : List LIn) (hk : keepsUp 2 (rxEvents n Link.init ins) = true) :
